@@ -42,42 +42,9 @@ example : findMatchingInterfaceName "baz".toList ["baz".toList, "foo:bar/baz".to
 /-- The documented rule for identifiers (named arguments, access expressions, step 3 of inferred
     arguments) — "exactly one … path which ends with the local name → the path, otherwise the
     identifier" (`Spec.shortName`) — is what `find_matching_interface_name(..).unwrap_or(id)`
-    computes, for identifiers (no `/`, no `@`) and key sets whose plain names carry no version. -/
-theorem short_name_rule (n : Str) (m : List Str)
-    (hn : '/' ∉ n ∧ '@' ∉ n) (hplain : ∀ q ∈ m, '/' ∉ q → '@' ∉ q) :
-    Spec.shortName n m = (findMatchingInterfaceName n m).getD n := by
-  unfold Spec.shortName findMatchingInterfaceName
-  by_cases hc : m.contains n = true
-  · -- the name is a key itself: every outcome of the documented rule is the name
-    have hmem : n ∈ m := by simpa using hc
-    simp only [hc, ↓reduceIte, Option.getD_none]
-    match hl : m.filter (fun p => Spec.finalComponent p == n) with
-    | [] => rfl
-    | [a] =>
-      have : n ∈ m.filter (fun p => Spec.finalComponent p == n) :=
-        List.mem_filter.mpr ⟨hmem, by simp [finalComponent_plain n hn.1 hn.2]⟩
-      rw [hl] at this
-      simp at this
-      simp [this]
-    | _ :: _ :: _ => rfl
-  · have hnm : n ∉ m := by simpa using hc
-    simp only [hc, Bool.false_eq_true, ↓reduceIte]
-    have : m.filter (fun p => Spec.finalComponent p == n) = m.filter (matchesInterfaceName n) := by
-      apply List.filter_congr
-      intro q hq
-      rw [matchesInterfaceName_eq]
-      by_cases hs : q.contains '/' = true
-      · rw [hs]; simp
-      · have hs' : '/' ∉ q := by simpa using hs
-        have : Spec.finalComponent q = q := finalComponent_plain q hs' (hplain q hq hs')
-        have hqn : q ≠ n := fun e => hnm (e ▸ hq)
-        have hs2 : q.contains '/' = false := by simpa using hs
-        rw [hs2, this]; simp [hqn]
-    rw [this]
-    match m.filter (matchesInterfaceName n) with
-    | [] => rfl
-    | [a] => rfl
-    | _ :: _ :: _ => rfl
+    computes, for every identifier and every list of names. -/
+theorem short_name_rule (n : Str) (m : List Str) :
+    Spec.shortName n m = (findMatchingInterfaceName n m).getD n := shortName_eq_model n m
 
 example : Spec.shortName "input-stream".toList ["wasi:io/input-stream".toList, "x".toList] = "wasi:io/input-stream".toList := by decide
 
